@@ -44,6 +44,13 @@ func key(c *out.Call, clause string) string {
 		if out.ForeignStanzaLocal(c) {
 			return "C05/" + entry(c) + "/name:marshaled-foreign-namespace-stanza-local"
 		}
+		if out.PrefixedElementName(c) {
+			return "C05/" + entry(c) + "/content:marshaled-prefixed-element-name"
+		}
+	case "content":
+		if out.PrefixedElementName(c) {
+			return "C05/" + entry(c) + "/content:marshaled-prefixed-element-name"
+		}
 	}
 	return k
 }
@@ -107,8 +114,14 @@ func (x *runner) run(sc *out.Scenario) {
 		if c.Mutated != "" {
 			x.res.Fail(key(c, "argument-mutated"), fmt.Sprintf("call %d changed %s of its argument (the caller's attribute slice)", i, c.Mutated), sc)
 		}
-		if c.Kind == "tokenwriter" && c.Second != "" && !strings.HasPrefix(c.Second, "RErr") {
-			x.res.Fail(key(c, "write-after-close"), "the token writer accepts a token after its Close: "+c.Second, sc)
+		if c.Kind == "tokenwriter" && c.Second != "" {
+			parts := strings.Split(c.Second, ",")
+			if !strings.HasPrefix(parts[0], "RErr") {
+				x.res.Fail(key(c, "write-after-close"), "the token writer accepts a token after its Close: "+c.Second, sc)
+			}
+			if len(parts) > 1 && parts[1] != "ROk" {
+				x.res.Fail(key(c, "second-close"), "closing a closed token writer again reports "+parts[1], sc)
+			}
 		}
 	}
 	if wellFormed(sc, o) {
@@ -195,15 +208,33 @@ func main() {
 		}
 		x.run(&rp.Case)
 	} else {
-		nBare, nSeq, nConc, nForced, nMal := 1200, 260, 60, 40, 160
+		nBare, nSeq, nConc, nForced, nMal, nDbl := 1200, 260, 60, 40, 160, 3
 		if o.Thorough() {
-			nBare, nSeq, nConc, nForced, nMal = 9000, 2200, 500, 300, 1200
+			nBare, nSeq, nConc, nForced, nMal, nDbl = 9000, 2200, 500, 300, 1200, 12
 		}
 		if o.Search {
-			nBare, nSeq, nConc, nForced, nMal = 12000, 3000, 600, 300, 1500
+			nBare, nSeq, nConc, nForced, nMal, nDbl = 12000, 3000, 600, 300, 1500, 12
 		}
 		// corpus first
 		for _, sc := range corpus() {
+			x.run(sc)
+		}
+		// a token writer closed twice, the second time while a Send is in the middle
+		// of its element; then another Send
+		for i := 0; i < nDbl; i++ {
+			so := opts(r)
+			g := &out.Gen{R: r, NS: nsOf(so), NoQuirks: true, NoBig: true}
+			sc := &out.Scenario{Mode: "dblclose", Opts: so}
+			for _, kind := range []string{"tokenwriter", "send", "send"} {
+				for {
+					c := g.Call(true, false)
+					if c.Kind == kind && (kind != "send" || c.CanMid()) {
+						c.Flush = nil
+						sc.Calls = append(sc.Calls, c)
+						break
+					}
+				}
+			}
 			x.run(sc)
 		}
 		// function level: the element layer on a bare stanza encoder
@@ -270,7 +301,7 @@ func main() {
 	}
 	res.Rule = "scenarios: corpus; bare stanza encoder with 1-3 Encode/EncodeElement/raw token calls; sessions (c2s/s2s, initiated/received) " +
 		"with 2-7 calls from one goroutine over every entry point and value form (incl. handler replies); malformed arguments; " +
-		"2-16 concurrent callers, free-running and with one caller parked inside the lock region; distinct = hash of the scenario; " +
+		"2-16 concurrent callers, free-running and with one caller parked inside the lock region or in the middle of its element; a token writer closed twice while a Send is in the middle of its element; distinct = hash of the scenario; " +
 		"every scenario is non-trivial (it exercises at least one transmit path)"
 	res.CaseFiles = append(res.CaseFiles, x.cf.Write(o.Out, 400)...)
 	res.Extra["model_cases"] = x.cf.Len()
